@@ -116,7 +116,7 @@ func newRecorder(id string) *recorder {
 					continue
 				}
 				var e knownEntry
-				if json.Unmarshal([]byte(line), &e) == nil && e.Property == id && e.Status == "known" {
+				if json.Unmarshal([]byte(line), &e) == nil && e.Status == "known" && (e.Property == id || strings.HasPrefix(e.Signature, e.Property+":")) {
 					r.known[e.Signature] = e.What
 				}
 			}
